@@ -12,9 +12,15 @@ PROP = {
              "valid cell trees, truncated cells, dropped refs, flipped bits, pruned-branch / library / Merkle cells in every "
              "reference position and at the root, random trees; compared: outcome class and unread bits/refs. Framing: "
              "decodeLength, processQueryAnswer, ParsePacket (valid, truncated, size-field attacks), and VmStack.UnmarshalTL / "
-             "ParseContractMethods / decodeAccountDataFromProof on BOCs with 0..3 roots and damaged BOCs. For 26 TL-B types "
-             "with hand-written decoders (hashmaps, VmStack, Message, Transaction, Account, Block ...) only the Go no-panic "
-             "oracle runs on the same tree families: exploration support, not part of the claim. "
+             "ParseContractMethods / decodeAccountDataFromProof on BOCs with 0..3 roots and damaged BOCs. For the 26 TL-B types "
+             "with hand-written decoders (hashmaps, VmStack incl. UnmarshalTL, Message, Transaction, Account, Block, Grams, "
+             "SnakeData, Text, Bytes, FixedLengthText, VmCont, VmStkTuple ...) the decoders run in the guarded child "
+             "(address-space limit, 10 s timeout) under a no-panic/no-crash oracle and an allocation oracle "
+             "`TotalAlloc delta <= 64*weight + 65536` (weight = sum over cells of 64 + data bytes, or the BOC length for "
+             "UnmarshalTL; plus 320*height^2 for VmStack whose list decoder re-copies the tail per level), with directed "
+             "inputs (VmStack depth prefixes up to 0xFFFFFF with 0..4 chain cells, tuple lengths, hashmap labels announcing "
+             "more bits than present, maximal length prefixes with a short remainder) - still exploration support, not part "
+             "of the claim; keys tlb-alloc-<Type>, tlb-panic-<Type>. "
              "A class is (kind, type or family, mutation family, outcome ok|err|panic|crash)."),
     'explanation': ("coq/Properties/C08.v: over a panic/allocation/step-annotated model of the repaired tl/decoder.go and the "
                     "mini-language of generated UnmarshalTL bodies, for every schema satisfying the decidable condition sok and "
@@ -28,9 +34,11 @@ PROP = {
     'assumptions': ["allocation is the sum of modelled requests; growth policies of reflect.Append and bytes.Buffer enter as upper "
                     "estimates (6x element size per append, 4x bytes read + 2048), checked empirically by the TotalAlloc oracle",
                     "the reader is a *bytes.Reader; time is a count of decode calls, not wall-clock",
-                    "TL-B types with hand-written decoders are covered only by the Go no-panic oracle (exploration support)",
+                    "TL-B types with hand-written decoders are covered by the guarded no-panic/no-crash and allocation oracles only (exploration support, no model)",
                     "tlb.Unmarshal of the root cell is a parameter of the root-indexing theorems; GetTransactions (r.Ids[i]) is "
-                    "proved on the model only (no fake-server run)"],
+                    "proved on the model only (no fake-server run)",
+                    "VmStack list decoding re-copies the tail per level (quadratic in the chain length): observation, allowed for "
+                    "explicitly in the allocation oracle"],
 }
 
 META = {
